@@ -428,6 +428,8 @@ def jobs(tier):
   slopes = [[0, 1], [1, 2], [1, 1], [2, 1], [-1, 1]]
   for m1, m2 in [(1, 2), (2, 0), (3, 1), (2, 4), (0, 2)]:
     add('h_adjust', N=1, m1=slopes[m1], m2=slopes[m2])
+  add('h_adjust', N=2, m1=slopes[1], m2=slopes[3])
+  add('h_adjust', N=2, m1=slopes[2], m2=slopes[0])
   add('h_rectify', B=1, bpm=60)
   add('h_rectify', B=2, bpm=120)
   add('h_rectify_quantized')
